@@ -91,5 +91,12 @@ CHECKS = {
    text='FixedPointAdd/Sub/Mult/Sign/Comparator for every format (1, iw, fw) with iw+fw <= 7 exhaustively over operand pairs, mixed formats, and wide formats on boundary x boundary + random.',
    note='Trusted: the Fraction references; product = floor (bit truncation of the two\'s-complement product).',
    ref='DESIGN.md section 4 C14'),
+ 'C19': dict(level='exploration', engine='call-history generator over live circuits and never-generated twins',
+   technique='runtime call-history monitor: deep structural snapshots around every generation call, twin-circuit simulation traces, normalised text comparison across generation requests',
+   text='Random histories of generation requests (same/fresh generator, hierarchy/single module/sub-object, createdStructures list, from the object or an ancestor), simulation steps and late structural '
+        'additions over 1-3 live circuits: the circuit snapshot must be identical before and after each call, the twin that never saw a generator must simulate identically and give the same text, all texts '
+        'for one (circuit, root) must agree after normalising instance suffixes and declaration order, and a generation that raises must also raise for a fresh copy of the circuit.',
+   note='Trusted: the snapshot covers children, ports, wires (values, sources, sinks), leaf attributes and Wire.prepared; Div/Mod/SignedDiv blocks are excluded (documented random output on zero divisor).',
+   ref='DESIGN.md section 4 C19'),
 }
 PENDING = {}
